@@ -1,7 +1,7 @@
 package sim
 
 import (
-	"github.com/rulego/streamsql/utils/simrt"
+	"verif.local/simrt"
 )
 
 // C02 — watermark discipline: no early firing, no on-time loss, bounded late updates, garbage
